@@ -172,7 +172,7 @@ def menus(tier: str):
             "iincl": [400.0, 1000.0],
             "lower_scale": [1.0],
             "exponents": [1.0, 0.0, 2.0],
-            "ngroups": [1, 2],
+            "ngroups": [1, 2, 3],
         }
     return {
         "shape": [(1, 1), (2, 1), (1, 2), (2, 2)],
